@@ -52,10 +52,35 @@ let rec tree_of cp = function
   | L (A "include" :: items) -> FInclude (List.map (tree_of cp) items)
   | _ -> failwith "tree"
 
+(* (layout ID MASTER (file ITEM ...) ...): the files named on the command line, MASTER = --master-account
+     NAME = dot-separated segment numbers, "-" for the empty name
+     ITEM = (x NAME ...) | (aa NAME) | (at TAG) | (end a|t|-) | (alias NAME NAME) | (bucket NAME) | (inc ITEM ...)
+   -> "ID E <errors>", then per transaction "ID X <i> <NAME,NAME,..> <bucket NAME|-> <TAG,TAG,..|->" *)
+let name_of s = if s = "-" then [] else List.map z_of_string (String.split_on_char '.' s)
+let show_name n = if n = [] then "-" else String.concat "." (List.map string_of_z n)
+let rec litem_of = function
+  | L (A "x" :: names) -> LXact (List.map (fun n -> name_of (atom n)) names)
+  | L [A "aa"; n] -> LApplyAccount (name_of (atom n))
+  | L [A "at"; t] -> LApplyTag (zatom t)
+  | L [A "end"; A k] -> LEnd (match k with "a" -> Some true | "t" -> Some false | _ -> None)
+  | L [A "alias"; k; t] -> LAlias (name_of (atom k), name_of (atom t))
+  | L [A "bucket"; n] -> LBucket (name_of (atom n))
+  | L (A "inc" :: its) -> LInclude (List.map litem_of its)
+  | _ -> failwith "layout item"
+let rec int_of_nat = function O -> 0 | S n -> 1 + int_of_nat n
+
 (* (files ID (xact ..)|(include ...) ...) ->
      "ID B <acct> <sorted amounts>" per account, "ID P <sym> <prec>" per commodity, "ID N <accepted postings>" *)
 let handle line =
   match parse_sexp line with
+  | L (A "layout" :: A id :: A master :: files) ->
+    let fs = List.map (function L (A "file" :: its) -> List.map litem_of its | _ -> failwith "layout file") files in
+    let (g, out) = read_journal (name_of master) fs in
+    Printf.sprintf "%s E %d" id (int_of_nat g.g_errs) ::
+    List.mapi (fun i r ->
+        Printf.sprintf "%s X %d %s %s %s" id i (String.concat "," (List.map show_name r.rx_accts))
+          (match r.rx_bucket with Some b -> show_name b | None -> "-")
+          (if r.rx_tags = [] then "-" else String.concat "," (List.map string_of_z r.rx_tags))) out
   | L (A "glob" :: A id :: pat :: names) ->
     (* (glob ID PATTERNHEX NAMEHEX ...): which of the file names the include pattern reads -> "ID G NAMEHEX 0|1" *)
     let p = str_of_hex (atom pat) in
